@@ -659,6 +659,115 @@ def r18_8(rep: Report) -> None:
         raise AnalysisError(f'only {n_sites} element classes found behind children() lists')
 
 
+def r18_9(rep: Report) -> None:
+    """decode-time and sequence-number corruptions are found by *chaining*: what a media segment says
+    comes next becomes the expectation (`expected_decode_time`, `expected_seg_num`) of its successor.
+    In the loop over the media segments the carried values must therefore be renewed from the current
+    segment on every iteration that goes on to the next one - whether or not the segment had to be
+    fetched in this pass.  A carry renewed only for freshly validated segments leaves the first segment
+    fetched after a manifest refresh without a predecessor, and a wrong tfdt / sequence number there is
+    reported by nothing."""
+    rid = 'R18.9'
+    rel = f'{V}/representation.py'
+    n_loops = 0
+    for _cls, fn in rep.repo.expanded_functions(rel):
+        for loop in [n for n in ast.walk(fn) if isinstance(n, (ast.For, ast.AsyncFor))]:
+            if 'media_segments' not in norm(loop.iter):
+                continue
+            elem = [x.id for x in ast.walk(loop.target) if isinstance(x, ast.Name)]
+            # the expectations set on the current element and the locals they are read from
+            exp_sets = [a_ for a_ in ast.walk(loop) if isinstance(a_, ast.Assign) and isinstance(a_.targets[0], ast.Attribute)
+                        and a_.targets[0].attr.startswith('expected_') and isinstance(a_.targets[0].value, ast.Name)
+                        and a_.targets[0].value.id in elem]
+            if not exp_sets:
+                continue
+            n_loops += 1
+            construct = f'{rel}::{_cls.name + "." if _cls is not None else ""}{fn.name}'
+            stored = {x.id for a_ in ast.walk(loop) for t_ in (a_.targets if isinstance(a_, ast.Assign) else
+                                                               [a_.target] if isinstance(a_, (ast.AnnAssign, ast.AugAssign)) else [])
+                      for x in ast.walk(t_) if isinstance(x, ast.Name) and isinstance(x.ctx, ast.Store)}
+
+            def roots(e: ast.AST, depth: int = 0) -> set[str]:
+                """loop-assigned locals an expression is computed from, through locals defined in the loop"""
+                out: set[str] = set()
+                for x in ast.walk(e):
+                    if isinstance(x, ast.Name) and x.id in stored and x.id not in elem:
+                        out.add(x.id)
+                return out
+            carried: set[str] = set()
+            for a_ in exp_sets:
+                todo = list(roots(a_.value))
+                seen: set[str] = set()
+                while todo:
+                    v = todo.pop()
+                    if v in seen:
+                        continue
+                    seen.add(v)
+                    defs = [d.value for d in ast.walk(loop) if isinstance(d, (ast.Assign, ast.AnnAssign))
+                            and getattr(d, 'value', None) is not None
+                            and norm(d.targets[0] if isinstance(d, ast.Assign) else d.target) == v]
+                    from_elem = [d for d in defs if any(isinstance(x, ast.Name) and x.id in elem for x in ast.walk(d))]
+                    if from_elem:
+                        carried.add(v)          # this local is what is taken over from a segment
+                    for d in defs:
+                        todo.extend(roots(d))
+            if not carried:
+                raise AnalysisError(f'{fn.name}: the expectations of a media segment are not derived from its predecessor')
+
+            def exits(stmts: list[ast.stmt], have: frozenset) -> list[tuple[str, frozenset]]:
+                """(how the block is left, carried locals renewed from the current segment so far)"""
+                cur = [have]
+                out: list[tuple[str, frozenset]] = []
+                for st in stmts:
+                    nxt = []
+                    for h in cur:
+                        if isinstance(st, ast.If):
+                            for kind, h2 in exits(st.body, h) + exits(st.orelse, h):
+                                (nxt if kind == 'fall' else out).append(h2 if kind == 'fall' else (kind, h2))
+                        elif isinstance(st, (ast.With, ast.AsyncWith)):
+                            for kind, h2 in exits(st.body, h):
+                                (nxt if kind == 'fall' else out).append(h2 if kind == 'fall' else (kind, h2))
+                        elif isinstance(st, ast.Try):
+                            res = exits(st.body, h) + [e_ for hd in st.handlers for e_ in exits(hd.body, h)]
+                            for kind, h2 in res:
+                                if kind == 'fall':
+                                    for k3, h3 in exits(st.orelse + st.finalbody, h2):
+                                        (nxt if k3 == 'fall' else out).append(h3 if k3 == 'fall' else (k3, h3))
+                                else:
+                                    out.append((kind, h2))
+                        elif isinstance(st, (ast.For, ast.AsyncFor, ast.While)):
+                            nxt.append(h)       # what an inner loop assigns is not certain
+                        elif isinstance(st, ast.Continue):
+                            out.append(('continue', h))
+                        elif isinstance(st, (ast.Break, ast.Return, ast.Raise)):
+                            out.append(('leave', h))
+                        else:
+                            h2 = set(h)
+                            if isinstance(st, (ast.Assign, ast.AnnAssign)) and getattr(st, 'value', None) is not None:
+                                tg = st.targets[0] if isinstance(st, ast.Assign) else st.target
+                                if isinstance(tg, ast.Name) and tg.id in carried:
+                                    if any(isinstance(x, ast.Name) and x.id in elem for x in ast.walk(st.value)) or \
+                                            isinstance(st.value, ast.Constant):
+                                        h2.add(tg.id)
+                            nxt.append(frozenset(h2))
+                    cur = nxt
+                return out + [('fall', h) for h in cur]
+            res = exits(loop.body, frozenset())
+            goes_on = [h for kind, h in res if kind in ('fall', 'continue')]
+            for v in sorted(carried):
+                key = f'`{v}` renewed on every iteration'
+                if goes_on and all(v in h for h in goes_on):
+                    rep.ok(rid, construct, key, f'{len(goes_on)} way(s) to the next iteration')
+                else:
+                    rep.fail(rid, construct, key,
+                             f'`{v}` (what the next media segment is checked against) is taken from the current segment '
+                             'on some paths of the loop body only: a segment that is skipped - already validated in an '
+                             'earlier pass - breaks the chain, and the first segment fetched after a refresh is checked '
+                             'against nothing (a wrong decode time or sequence number there goes unreported)', loop)
+    if n_loops < 1:
+        raise AnalysisError('the loop that chains media segment expectations was not found')
+
+
 def analyse(rep: Report) -> None:
     rep.explanation = (
         'Detection side of C18 as an inventory: for each corruption kind of the property the '
@@ -674,6 +783,7 @@ def analyse(rep: Report) -> None:
     rep.rule('R18.6', 'super() calls in the validator pass arguments the inherited method accepts', floor=10)
     rep.rule('R18.7', 'attributes read from self are defined somewhere in the class hierarchy', floor=1)
     rep.rule('R18.8', 'every class listed by a children() method defines what the tree walkers call', floor=6)
+    rep.rule('R18.9', 'the expectation chained from one media segment to the next is renewed on every iteration', floor=1)
     r18_1_2(rep)
     r18_3(rep)
     r18_4(rep)
@@ -681,3 +791,4 @@ def analyse(rep: Report) -> None:
     r18_6(rep)
     r18_7(rep)
     r18_8(rep)
+    r18_9(rep)
